@@ -30,7 +30,7 @@ NARROW = [("hilbert", "u8", (9, 3)), ("hilbert", "u8", (17, 2)), ("hilbert", "u8
 
 
 NARROW_IX = [("mortonF", "u8", (16, 16)), ("mortonT", "u8", (9, 3)), ("hilbert", "u8", (16, 9)), ("mortonF", "u8", (3, 4, 2, 1)), ("mortonF", "u8", (5, 3)),
-             ("hilbert", "u16", (129, 200)), ("mortonF", "u16", (256, 256)), ("mortonT", "u16", (33, 2, 40)), ("hilbert", "u32", (40, 40))]
+             ("hilbert", "u16", (129, 200)), ("mortonF", "u16", (256, 256)), ("mortonT", "u16", (17, 2, 30)), ("hilbert", "u32", (40, 40))]
 
 
 def evaluate(ctx, lines, rle, all8, allocs, cfgs):
